@@ -47,6 +47,8 @@ def render(kind, cls, n, name):
         return "%s+%s" % (code, name), None
     if kind == ".":
         return ".", None
+    if kind == "d0":
+        return "", ""            # an empty data line: part of the payload like any other line
     txt = {"d": "t%d", "dS": "250 t%d", "dE": "650 EVA t%d", "dM": "250-t%d", "dP": "250+t%d",
            "dK": "k%d=v"}[kind] % n
     return txt, txt
@@ -68,7 +70,7 @@ class Run(object):
         self.dlnow = []
         self.dn = []
         self.exc = False
-        self.tokmap = {"OK": 0}
+        self.tokmap = {"OK": 0, "": -2}
         self.nline = 0
         self.pending = []       # [(bytes, kind)] lines begun, not yet completely delivered
         self.partial = b""      # bytes of pending[0] already delivered
@@ -280,7 +282,7 @@ class Run(object):
                 for i, kind in enumerate(e["sh"]):
                     self.nline += 1
                     wire, piece = render(kind, cls, self.nline, name if i == 0 else "")
-                    if piece is not None and kind != "sOK":
+                    if piece is not None and kind not in ("sOK", "d0"):
                         self.tokmap[piece] = self.nline
                     self.pending.append(wire.encode("ascii") + b"\r\n")
                 if self.seg[0] == "early":
@@ -406,9 +408,10 @@ def replay(script, seg=("whole",), rng=None):
 REPLY_SHAPES = [("2", ["sOK"]), ("2", ["s"]), ("2", ["m", "s"]), ("2", ["m", "m", "sOK"]),
                 ("2", ["p", "d", ".", "sOK"]), ("2", ["p", ".", "s"]),
                 ("2", ["m", "p", "dS", "dE", ".", "m", "sOK"]), ("2", ["p", "dM", "dP", "dK", "d", ".", "sOK"]),
-                ("2", ["p", "d", ".", "p", "dS", ".", "sOK"]),
+                ("2", ["p", "d", ".", "p", "dS", ".", "sOK"]), ("2", ["p", "d0", "d", "d0", ".", "sOK"]),
                 ("5", ["s"]), ("5", ["m", "s"]), ("5", ["m", "m", "s"])]
-EVENT_SHAPES = [["s"], ["sB"], ["m", "sOK"], ["mB", "m", "sOK"], ["m", "m", "m", "sOK"],
+EVENT_SHAPES = [["s"], ["sB"], ["m", "sOK"], ["mB", "m", "sOK"], ["m", "m", "m", "sOK"], ["p", "d0", "d", "d0", ".", "sOK"],
+                ["p", "d0", ".", "sOK"],
                 ["p", "d", ".", "sOK"], ["pB", "dM", "d", ".", "sOK"], ["pB", "dS", "dE", "dK", ".", "sOK"],
                 ["m", "p", "d", ".", "sOK"]]
 LISTENERS = ["ok1", "ok2", "self", "other", "raise", "adder", "late", "killer"]
